@@ -231,6 +231,9 @@ def names_of(libname, decl_index):
                             if lang == "c":
                                 for ci in containers:
                                     table[ci].setdefault("c-inside", set()).add(getattr(fmt, field))
+                            if lang == "fortran":
+                                for ci in containers:
+                                    table[ci].setdefault("f-inside", set()).add(getattr(fmt, field))
             for en in getattr(node, "enums", []):
                 for mname, mfmt in getattr(en, "_fmtmembers", {}).items():
                     for ci in containers:
@@ -239,6 +242,8 @@ def names_of(libname, decl_index):
                 kind = "class" if sub in getattr(node, "classes", []) else "namespace"
                 text = "%s %s" % (kind, sub.name)
                 inner = containers + ((decls.index(text),) if text in decls else ())
+                if kind == "class" and text in decls and sub.fmtdict.inlocal("F_derived_name"):
+                    table[decls.index(text)].setdefault("f-type", set()).add(sub.fmtdict.F_derived_name)
                 visit(sub, inner)
         visit(r.library)
         overloaded = set()
@@ -356,6 +361,16 @@ def check_run(libname, wrap_c, wrap_f, decl_index, decl_cf, cfg, res):
             for nm in mine.get("c-inside", []):
                 if re.search(r"\b%s\b" % re.escape(nm), ctext):
                     return "declaration %r has wrap_c off but %s (declared inside it) appears in the C output" % (dtext, nm)
+        if not dflag["fortran"]:
+            # a container whose Fortran wrapper is off: neither its derived type nor a procedure declared inside it
+            ftext = "\n".join(t for f, t in files.items() if kind_of(f) == "fortran")
+            foutside = re.sub(r"(?ims)^\s*interface\b.*?^\s*end interface\b[^\n]*", "", ftext)
+            for nm in mine.get("f-type", []):
+                if re.search(r"(?im)^\s*type\s*(?:,[^:\n]*)?(?:::)?\s*%s\s*$" % re.escape(nm), ftext):
+                    return "declaration %r has wrap_fortran off but the derived type %s is defined in the Fortran module" % (dtext, nm)
+            for nm in mine.get("f-inside", []):
+                if re.search(r"(?im)^\s*(?:[a-z_()0-9 ]*\s)?(subroutine|function)\s+%s\s*\(" % re.escape(nm), foutside):
+                    return "declaration %r has wrap_fortran off but the Fortran wrapper %s (declared inside it) is emitted" % (dtext, nm)
         for lang in ("python", "lua", "fortran"):
             others = set()
             for j in range(nd):
